@@ -32,6 +32,11 @@ def main():
     if a.only:
         names = [n for n in names if n in a.only.split(",")]
     run_cases(chk, "vlib.validc", "builds_case", names, {"tier": a.tier, "scalars": ["float64"] if q else ["float64", "float32"]}, a.jobs)
+    from vlib import exprcheck
+    enames = exprcheck.select(quick=q) + [f"randexpr:{chk.seed}:{i}" for i in range(8 if q else 120)]
+    if not a.only:
+        run_cases(chk, "vlib.validc", "builds_expr_case", enames, {"tier": a.tier, "scalars": ["float64"] if q else ["float64", "complex128"]}, a.jobs)
+        chk.extra["expressions_built"] = len(enames)
     # 4. unsupported constructs
     cands = [n for n, _, _ in validc.rejection_candidates()]
     run_cases(chk, "vlib.validc", "rejection_case", cands, {"tier": a.tier}, min(a.jobs, 6))
